@@ -8,6 +8,7 @@ import PgModel.C05Store
 import PgGen.C05Sig
 import PgProofs.C05Codec
 import PgProofs.C05Store
+import PgProofs.C05Keys
 namespace Pg.C05
 
 /-! ## T-SIG: value specs can be rebuilt from what `to_json` emits -/
@@ -100,6 +101,30 @@ theorem C05_reserved_int_key_prefix {Text : Type} (dumps : JS → Text) (loads :
   unfold fromJsonStr toJsonStr
   rw [hjson]
   rfl
+
+theorem intKeyPrefix_eq : intKeyPrefix = ['n', '_', ':'] := by decide
+
+/-- KEY CODING of the string form, for every key: an int key (any size, any sign) and every str
+key that does not start with `n_:` survive `f'n_:{k}'` followed by `_get_key` (`int(k[3:])`);
+so the key coding is injective off the reserved prefix (`int ∘ str = id` is proved for the model's
+own digit functions, not assumed). -/
+theorem C05_key_codec (k : Key) (h : keyReserved true k = false) : decKey (encKey k) = .ok k := by
+  cases k with
+  | s name =>
+    simp only [keyReserved, Bool.true_and, Bool.or_eq_false_iff] at h
+    simp [decKey, encKey, h.2]
+  | i n =>
+    have hp : intKeyPrefix.isPrefixOf (intKeyPrefix ++ reprInt n) = true := by
+      rw [intKeyPrefix_eq]; simp [List.isPrefixOf]
+    have hd : (intKeyPrefix ++ reprInt n).drop 3 = reprInt n := by
+      rw [intKeyPrefix_eq]; rfl
+    simp only [decKey, encKey, hp, if_true, hd, parseInt_reprInt]
+
+/-- … and on the reserved prefix it is not: the str key `n_:5` and the int key 5 are written alike. -/
+theorem C05_key_codec_counterexample :
+    encKey (.s "n_:5".toList) = encKey (.i 5) ∧ Key.s "n_:5".toList ≠ Key.i 5 := by
+  refine ⟨?_, by decide⟩
+  simp [encKey, intKeyPrefix, reprInt, natDigits, digitChar]
 
 /-! ## Stores -/
 
